@@ -84,6 +84,24 @@ SampledOn(k) == s % k = 0 =>
       /\ \A m \in Members(IvTop(8), st) : Len(m) = 8
 Sampled == SampledOn(4)
 SampledQ == SampledOn(32)
+\* the integer comparison conditions of C04 against the cross-checked BVInt operations and BV.tla
+CondAgree == st = 0 => \A c \in S8 :
+   /\ CondHoldsI("sle", s, c) <=> IBinOp("IntSLessEqual", ToU(s), ToU(c)) = 1
+   /\ CondHoldsI("ule", s, c) <=> IBinOp("IntLessEqual", ToU(s), ToU(c)) = 1
+   /\ CondHoldsI("sge", s, c) <=> IBinOp("IntSLessEqual", ToU(c), ToU(s)) = 1
+   /\ CondHoldsI("uge", s, c) <=> IBinOp("IntLessEqual", ToU(c), ToU(s)) = 1
+   /\ CondHoldsI("ne", s, c) <=> IBinOp("IntNotEqual", ToU(s), ToU(c)) = 1
+   /\ \A k \in RefKinds : CondHoldsI(k, s, c) <=> CondHolds(k, Bv(s, 1), Bv(c, 1))
+\* IvMembersNear: exactly the members with index within N+1 above / N below the bound
+NearOn(SS) == s \in SS => \A e \in Ends : \A v \in {s - 3, s + 1, e, e + 2} \cap S8 :
+   LET x == Iv(s, e, st, 8)
+       G == Explicit(s, e, st)
+       below == {g \in G : g <= v}
+       kd == IF below = {} THEN 0 ELSE Cardinality(below) - 1
+       want == {g \in G : \E k \in (kd - 1)..(kd + 2) : g = s + k * st}
+   IN IvMembersNear(x, Bv(v, 8), 1) = {Bv(g, 8) : g \in want}
+Near == NearOn(Grid)
+NearQ == st \in {0, 1, 3, 8} => NearOn({-128, -1, 0, 120})
 \* Subset / GammaEq against the set definitions (1 byte), partner intervals [t, t+3d] stride d
 Incl == \A e \in Ends : \A t \in {s - 1, s, s + 1} \cap S8 : \A d \in {0, 1, st, 2 * st} :
    LET x == Iv(s, e, st, 1)
